@@ -17,6 +17,7 @@ package validation
 import (
 	"crypto/tls"
 	"fmt"
+	"net/url"
 	"strings"
 
 	apimachineryvalidation "k8s.io/apimachinery/pkg/api/validation"
@@ -72,6 +73,12 @@ func ValidateServers(servers []proxyv1alpha1.UpstreamClusterServer, fldPath *fie
 			allErrs = append(allErrs, field.Invalid(fldPath.Child("servers").Index(i), s, "endpoint must supply http(s) schema"))
 		} else {
 			schemes.Insert(scheme)
+			// the gateway parses the endpoint to build its clients and to address proxied requests
+			if u, err := url.Parse(servers[i].Endpoint); err != nil {
+				allErrs = append(allErrs, field.Invalid(fldPath.Child("servers").Index(i), s, fmt.Sprintf("endpoint must be a valid URL: %v", err)))
+			} else if len(u.Hostname()) == 0 {
+				allErrs = append(allErrs, field.Invalid(fldPath.Child("servers").Index(i), s, "endpoint must supply a host"))
+			}
 		}
 		upstreams.Insert(s.Endpoint)
 	}
@@ -155,6 +162,15 @@ func ValidateClientConfig(scheme string, clientconfig *proxyv1alpha1.ClientConfi
 
 func ValidateSecureServing(serving *proxyv1alpha1.SecureServing, fldPath *field.Path) field.ErrorList {
 	allErrs := field.ErrorList{}
+
+	// half a pair is unusable: a new gateway would serve no certificate for the
+	// cluster while a running one silently keeps the previous pair
+	if len(serving.CertData) > 0 && len(serving.KeyData) == 0 {
+		allErrs = append(allErrs, field.Required(fldPath.Child("keyData"), "keyData is required if certData is specified"))
+	}
+	if len(serving.KeyData) > 0 && len(serving.CertData) == 0 {
+		allErrs = append(allErrs, field.Required(fldPath.Child("certData"), "certData is required if keyData is specified"))
+	}
 
 	if len(serving.CertData) > 0 && len(serving.KeyData) > 0 {
 		_, err := tls.X509KeyPair(serving.CertData, serving.KeyData)
@@ -296,7 +312,7 @@ func ValidateFlowControlConfiguration(schema *proxyv1alpha1.FlowControlSchemaCon
 	}
 	if schema.GlobalMaxRequestsInflight != nil {
 		if schema.GlobalMaxRequestsInflight.Max < 0 {
-			allErrs = append(allErrs, field.Invalid(fldPath.Child("globalMaxRequestsInflight").Child("max"), schema.MaxRequestsInflight.Max, "must be bigger than or equal to 0"))
+			allErrs = append(allErrs, field.Invalid(fldPath.Child("globalMaxRequestsInflight").Child("max"), schema.GlobalMaxRequestsInflight.Max, "must be bigger than or equal to 0"))
 		}
 		if schema.MaxRequestsInflight == nil {
 			allErrs = append(allErrs, field.Required(fldPath.Child("maxRequestsInflight"), "required if globalMaxRequestsInflight is specified"))
